@@ -3,7 +3,7 @@
 usage: tools/run_seeded.py [id ...]      (always restores /repo)"""
 import json, os, subprocess, sys, glob, re
 V = "/verif"
-EXTRA = {"C01-A": ["C13", "C12"], "C02-B": ["C10", "C12"]}   # cross-property detection worth recording
+EXTRA = {"C01-A": ["C13", "C12"], "C02-B": ["C10", "C12"], "C18-B": ["C10"], "C19-B": ["C14"]}   # cross-property detection worth recording
 ids = sys.argv[1:] or sorted(os.path.basename(d) for d in glob.glob(V + "/seeded/*") if os.path.isdir(d))
 rows = []
 for i in ids:
@@ -39,5 +39,11 @@ for i in ids:
     json.dump(meta, open(os.path.join(d, "meta.json"), "w"), indent=1)
     rows.append((i, prop, ", ".join(det) or "NOT DETECTED", detail))
     print("%-7s %-4s %-22s %s" % rows[-1], flush=True)
+# the table always lists every seeded change (results of earlier invocations come from the meta files)
+allrows = []
+for d in sorted(glob.glob(V + "/seeded/*/meta.json")):
+    m = json.load(open(d))
+    det = m.get("detected_by")
+    allrows.append((m["id"], m["breaks_property"], "not run" if det is None else (", ".join(det) or m.get("note") or "NOT DETECTED"), m.get("detection_detail", "")))
 open(os.path.join(V, "seeded", "RESULTS.md"), "w").write("| seeded change | property | detected by (quick tier) | first oracle |\n|---|---|---|---|\n" +
-    "\n".join("| %s | %s | %s | %s |" % r for r in rows) + "\n")
+    "\n".join("| %s | %s | %s | %s |" % r for r in allrows) + "\n")
